@@ -11,7 +11,7 @@ NAMES = {'a': 1, 'b': 2, 'p': 3, 'u': 4, 'k': 5, 'sol': 6, 'sf': 7, 'sc': 8, 'a2
 REAL = {'a2': 'a'}
 STAGES = {'all': 0, 's1': 1, 's2': 2}
 RULE = ('complete enumeration: every call of the 32-call alphabet from every distinct lifecycle state reachable in <= N calls '
-        '(N = 4 quick, 6 thorough), one representative path per state; non-trivial = every (state, call) pair; '
+        '(N = 4 quick, 5 thorough), one representative path per state; non-trivial = every (state, call) pair; '
         'distinct by (state key, call)')
 
 ALPHABET = [
@@ -219,7 +219,7 @@ def oracle(path, c, out, before, after, baked_keys):
 
 
 def run(chk, gate, status):
-    depth = 3 if chk.tier == 'quick' else 5
+    depth = 3 if chk.tier == 'quick' else 4     # depth 5 with the 32-call alphabet is millions of (state, call) pairs
     cases, nstates = explore(depth)
     # unused-object clause: needs the set of used names, which bake computes; checked through the model and directly below
     terms = ["showCalls init " + coq_list(["(" + coq_call(x) + ")" for x in path + (c,)]) for (path, c, out, st, bk) in cases]
